@@ -28,6 +28,8 @@ Post(e, len) == MatchesPost(CtxL(e, len), e.op, QSet(e.post.quads), ToSet(e.post
 
 Unchanged(e) == QSet(e.post.quads) = QSet(e.pre.quads) /\ ToSet(e.post.graphs) = ToSet(e.pre.graphs)
 
+Relaxations == {{"unbound"}, {"types"}, {"order"}, {"unbound", "types", "order"}, {"sideways"}, {"sideways", "unbound", "types", "order"}}
+
 Judge(e) ==
   IF e.res = "panic" THEN "panic"
   ELSE CASE e.cls = "update" ->
@@ -41,6 +43,7 @@ Judge(e) ==
               ELSE IF Post(e, {"unbound", "types", "order"}) THEN "lenient:several"
               ELSE IF Post(e, {"sideways"}) THEN "lenient:sideways"
               ELSE IF Post(e, {"sideways", "unbound", "types", "order"}) THEN "lenient:sideways+"
+              ELSE IF \E L \in Relaxations : ~AllCutsDefinite(CtxL(e, L), e.op.where, DefaultView(CtxL(e, L)), "") THEN "skip-cut"
               ELSE "wrong-effect"
          [] e.cls = "reject" ->
               IF ~Unchanged(e) THEN "rejected-but-changed"
